@@ -14,12 +14,23 @@ from armi.utils import properties, units
 shims.patch(xc, np=shims.np_shim)
 
 STUBS = ["xsCollections.np -> object-array aware numpy shim (np.zeros gives object arrays in symbolic runs)",
+         "the class-wide cache of default zero vectors (XSCollection._zeroes) is emptied at the start of every "
+         "execution of a harness that computes macroscopic data (each path is a fresh process as far as armi is "
+         "concerned)",
          "library = real IsotxsLibrary holding real XSNuclide objects whose micros (real XSCollection) carry numpy "
          "OBJECT arrays of symbolic reals; nothing is read from files"]
 
 NG = 2
 SUFFIX = "AA"
 ALLNUCS = ["U235", "U238", "FE56"]
+
+
+def fresh_process_state():
+    """armi keeps ONE class-wide default zero vector per group count (XSCollection._zeroes), handed to every nuclide
+    for the reactions it lacks.  Paths, replays and self-test vectors are re-executions inside one Python process: each
+    starts with that cache empty, as a fresh process would (a defect that writes into the shared vector must show up
+    as a failed obligation inside one execution, not as proxies leaking from one execution into the next)."""
+    xc.XSCollection._zeroes.clear()
 
 
 def arr(vals):
@@ -104,6 +115,13 @@ def flat(x):
     return None if x is None else [v for v in np.asarray(x).flat]
 
 
+def default_zero_vector_intact(ctx, ng=None):
+    """the class-wide vector that stands for every absent reaction of every nuclide must still hold zeros"""
+    z = xc.XSCollection.getDefaultXs(ng or NG)
+    ctx.check("the default vector of absent reactions (XSCollection.getDefaultXs) still holds zeros",
+              all(bool_same(v, 0.0) for v in z.flat))
+
+
 def densities(ctx, nucs, tag="N", lo=0.0):
     return {n: ctx.real("%s_%s" % (tag, n), lo, 10.0) for n in nucs}
 
@@ -143,6 +161,7 @@ def oracle(L, nd, reaction, mkind, mult, g):
                                                       "nuSigF_multLib")],
                     "thorough": [dict(case=c) for c in CASES]})
 def macroscopic_constant_is_density_weighted_sum(ctx, case):
+    fresh_process_state()
     reaction, mult, mkind = CASES[case]
     nucs = ALLNUCS
     two = case.endswith("multLib")
@@ -190,6 +209,7 @@ def macroscopic_constant_is_density_weighted_sum(ctx, case):
                        "symbolic density in [0,10] (incl. exactly 0)", stubs=STUBS,
          instances={"quick": [dict(case="fission"), dict(case="nuSigF")]})
 def nuclide_missing_from_library_is_an_error_not_a_skip(ctx, case):
+    fresh_process_state()
     reaction, mult, mkind = CASES[case]
     nucs = ALLNUCS[:2]
     L = Lib(ctx, nucs, reactions=[reaction], nu=(mkind == "vector"))
@@ -220,6 +240,7 @@ ABS_PARTS = list(xc.ABSORPTION_XS)           # nGamma, nalph, np, nd, nt, fissio
                        "(nu in [0,5]); densities in [0,10] incl. 0", stubs=STUBS, qtimeout_ms=20000,
          instances={"quick": [dict(nn=2)], "thorough": [dict(nn=3)]})
 def creator_basic_xs_absorption_and_diffusion(ctx, nn):
+    fresh_process_state()
     nucs = ALLNUCS[:nn]
     L = Lib(ctx, nucs, reactions=ABS_PARTS + ["total", "transport"], nu=True)
     N = densities(ctx, nucs)
@@ -254,6 +275,7 @@ def creator_basic_xs_absorption_and_diffusion(ctx, nn):
     ctx.check("getAbsorptionXS lists exactly the seven absorption reactions of the collection",
               len(m.getAbsorptionXS()) == 7 and all(any(x is m[r] for x in m.getAbsorptionXS()) for r in ABS_PARTS))
     same_snapshot(ctx, before, L.snapshot(), "building macroscopic cross sections")
+    default_zero_vector_intact(ctx)
 
 
 ENERGY = {
@@ -269,6 +291,7 @@ ENERGY = {
          stubs=STUBS, qtimeout_ms=20000,
          instances={"quick": [dict(kind=k) for k in ENERGY]})
 def energy_constants_are_density_weighted_sums(ctx, kind):
+    fresh_process_state()
     fn, attr = ENERGY[kind]
     nucs = ALLNUCS[:2]
     reactions = {"fissionEnergy": ["fission"], "captureEnergy": list(xc.CAPTURE_XS)}.get(kind, [])
@@ -608,6 +631,7 @@ STUBS_BLOCK = STUBS + ["composites.np / component.np / blocks.np -> numpy shim, 
                        "[1e-6,1e3], the same concrete fission spectrum for every nuclide, no scattering matrices",
          stubs=STUBS_BLOCK, qtimeout_ms=20000)
 def block_macros_from_micros(ctx):
+    fresh_process_state()
     nucs = ["U235", "U238", "FE"]
     L = Lib(ctx, nucs, reactions=ABS_PARTS + ["total", "transport"], nu=True)
     chi = np.array([0.9, 0.1])
@@ -647,3 +671,4 @@ def block_macros_from_micros(ctx):
                   "(zeros without fission source)" % g,
                   ITE(src == 0, flat(m.chi)[g] == 0, CLOSE(flat(m.chi)[g], float(chi[g]), scale=1.0)))
     same_snapshot(ctx, before, L.snapshot(), "createMacrosFromMicros")
+    default_zero_vector_intact(ctx)
